@@ -505,7 +505,7 @@ func stepB(st *stor.Stor, s *stateB, e evB, sb *statsB) (n *stateB, class, msg s
 			sb.maxChain = max(sb.maxChain, len(c2.Offs))
 			if off == s.lastOff {
 				sb.nothingWritten++
-			} else {
+			} else if len(c2.Offs) > 0 {
 				if no >= hamt.VerifMaxChain {
 					sb.flattenMax++
 				} else if len(c2.Offs) <= no {
@@ -575,7 +575,6 @@ func addStatsB(c *lib.Ctx, sb *statsB) {
 	c.Count("B_writes_flattening_at_maxChain", sb.flattenMax)
 	c.Count("B_chunks_written_with_tombstones", sb.tombsWritten)
 	c.Count("B_writes_with_nothing_to_write", sb.nothingWritten)
-	c.Count("B_longest_chain_x1000", 0)
 }
 
 func partB(c *lib.Ctx, nkeys, maxClock, maxDepth, maxStates int) {
